@@ -710,11 +710,15 @@ func runSuccess(ctx context.Context, t interface {
 				}
 				alt.CLI = &sel
 				if k2, _ := checkImage(ctx, &alt, img); k2 == "" {
-					key = "exclude-path-above-module-dir-ignored"
+					// open known finding: decided by the input shape (an exclude that is a strict ancestor of a
+					// module directory) AND the symptom (the image is exactly what the remaining flags select);
+					// any other wrong image under the same shape keeps its ordinary key
+					key = keyExcludeAbove
+					r.Excluded(keyExcludeAbove)
 					msg = fmt.Sprintf("--exclude-path %v names a directory that contains whole module directories; it was silently ignored: %s", ab, msg)
 				}
 			}
-			msg = fmt.Sprintf("[%s input, strip_components=%d, subdir=%q, --path %v --exclude-path %v] %s", c.CLI.Kind, c.CLI.Strip, c.CLI.subDir(), c.CLI.Paths, c.CLI.Excludes, msg)
+			msg = fmt.Sprintf("[%s input, buf.yaml=%v, strip_components=%d, subdir=%q, --path %v --exclude-path %v] %s", c.CLI.Kind, !c.CLI.NoConfig, c.CLI.Strip, c.CLI.subDir(), c.CLI.Paths, c.CLI.Excludes, msg)
 		}
 		r.Fail(t, key, msg, c)
 	}
